@@ -330,10 +330,25 @@ type c03chunker struct {
 	net.Conn
 	sizes []int
 	buf   []byte
+	// after stallAt bytes (>= 0) the writer stalls once for `stall`, then goes on with the sizes `post`
+	stallAt int
+	stall   time.Duration
+	post    []int
+	emitted int
+	stalled bool
+}
+
+func (k *c03chunker) stallNow() {
+	if k.stallAt >= 0 && !k.stalled && k.emitted >= k.stallAt {
+		k.stalled = true
+		time.Sleep(k.stall)
+		k.sizes = k.post
+	}
 }
 
 func (k *c03chunker) emit(final bool) error {
 	for len(k.buf) > 0 {
+		k.stallNow()
 		for len(k.sizes) > 0 && k.sizes[0] == 0 {
 			k.sizes = k.sizes[1:]
 		}
@@ -350,10 +365,14 @@ func (k *c03chunker) emit(final bool) error {
 		} else if !final {
 			return nil
 		}
+		if k.stallAt >= 0 && !k.stalled && k.emitted+n > k.stallAt {
+			n = k.stallAt - k.emitted
+		}
 		if _, err := k.Conn.Write(k.buf[:n]); err != nil {
 			return err
 		}
 		k.buf = k.buf[n:]
+		k.emitted += n
 	}
 	return nil
 }
@@ -478,6 +497,7 @@ type c03link struct {
 	r1, r2   *network.Router
 	to       *network.ServerIdentity
 	mu       sync.Mutex
+	release  chan struct{} // while set and open, the receiving processor waits on it
 	got      []interface{} // delivered values, kept
 	seen     []string      // what each of them marshalled to when its operation was evaluated
 	closed1  chan bool
@@ -496,6 +516,13 @@ func (l *c03link) deliveries() int {
 func (l *c03link) register() {
 	for _, t := range c03types {
 		l.r2.RegisterProcessorFunc(t, func(e *network.Envelope) error {
+			l.mu.Lock()
+			rel := l.release
+			l.release = nil
+			l.mu.Unlock()
+			if rel != nil {
+				<-rel
+			}
 			l.mu.Lock()
 			l.got = append(l.got, e.Msg)
 			l.mu.Unlock()
@@ -774,7 +801,7 @@ func (st *c03state) cfg(m, reg, bad string) string {
 // writer, and whose receiving end is a real TCPConn.
 func c03pipe(chunks []int) (send *network.TCPConn, ck *c03chunker, a net.Conn, recv *network.TCPConn, b net.Conn) {
 	a, b = net.Pipe()
-	ck = &c03chunker{Conn: a, sizes: append([]int{}, chunks...)}
+	ck = &c03chunker{Conn: a, sizes: append([]int{}, chunks...), stallAt: -1}
 	return network.VerifNewTCPConn(ck, fix.Suite), ck, a, network.VerifNewTCPConn(b, fix.Suite), b
 }
 
@@ -786,7 +813,9 @@ func c03feed(send *network.TCPConn, ck *c03chunker, a net.Conn, frames [][]byte,
 		}
 	}
 	if _, err := ck.Write(tail); err == nil {
-		ck.Flush()
+		if ck.Flush() == nil {
+			ck.stallNow() // a stall after the last byte, before the close
+		}
 	}
 	a.Close()
 }
@@ -886,7 +915,7 @@ func (st *c03state) loopRouter() error {
 	return nil
 }
 
-func (st *c03state) loop(frames [][]byte, tail []byte, chunks []int) string {
+func (st *c03state) loop(frames [][]byte, tail []byte, chunks []int, stall bool, post []int) string {
 	if err := st.loopRouter(); err != nil {
 		st.cs.Fail("harness", err.Error())
 		return "harness-error"
@@ -895,6 +924,17 @@ func (st *c03state) loop(frames [][]byte, tail []byte, chunks []int) string {
 	st.log.l = nil
 	st.log.mu.Unlock()
 	send, ck, a, recv, b := c03pipe(chunks)
+	stallAt := 0
+	if stall {
+		// the sender stalls after the bytes of `chunks` for several read time-outs; the time-out
+		// of the package is scaled down for this operation (hook VerifSetReadTimeout)
+		for _, c := range chunks {
+			stallAt += c
+		}
+		ck.stallAt, ck.stall, ck.post = stallAt, 900*time.Millisecond, post
+		old := network.VerifSetReadTimeout(250 * time.Millisecond)
+		defer network.VerifSetReadTimeout(old)
+	}
 	rec := &c03rec{Conn: recv, log: st.log, closed: make(chan struct{}), limit: network.Size(st.max)}
 	network.MaxPacketSize = st.defMax
 	st.host.mu.Lock()
@@ -986,11 +1026,54 @@ func (st *c03state) loop(frames [][]byte, tail []byte, chunks []int) string {
 			}
 		}
 	}
+	if stall {
+		// what went out before the stall is all the receiver may ever use
+		var stream []byte
+		for _, f := range frames {
+			stream = append(append(stream, c03be32(len(f))...), f...)
+		}
+		stream = append(stream, tail...)
+		if stallAt < len(stream) {
+			stream = stream[:stallAt]
+		}
+		in := c03split(stream, st.max)
+		rest := len(stream)
+		for _, f := range in {
+			rest -= 4 + len(f)
+		}
+		wantEnd := "timeout"
+		if rest >= 4 {
+			off := len(stream) - rest
+			if n := int(stream[off])<<24 | int(stream[off+1])<<16 | int(stream[off+2])<<8 | int(stream[off+3]); n > st.max {
+				wantEnd = "toobig"
+			}
+		}
+		want = nil
+		for _, f := range in {
+			if v, cl := c03unmarshal(f); cl == "ok" {
+				if b, err := network.Marshal(v); err == nil && bytes.Equal(b, f) {
+					want = append(want, h.Hex(f))
+				} else {
+					want = append(want, "noncanonical")
+				}
+			}
+		}
+		same := len(dels) == len(want)
+		for i := 0; same && i < len(want); i++ {
+			same = dels[i] == want[i] || want[i] == "noncanonical"
+		}
+		if !same || end != wantEnd {
+			st.cs.Fail("stall-not-closed", fmt.Sprintf("the sender stalled after %d bytes for longer than the read time-out: deliveries %v (complete decodable frames before the stall: %v), end %q (expected %q), events %s", stallAt, dels, want, end, wantEnd, strings.Join(ev, ",")))
+		}
+		k = len(frames)
+		tail = []byte{1}
+	}
 	okPrefix := len(dels) >= len(want)
 	for i := 0; okPrefix && i < len(want); i++ {
 		okPrefix = dels[i] == want[i] || want[i] == "noncanonical"
 	}
 	switch {
+	case stall:
 	case !okPrefix:
 		st.cs.Fail("delivery", fmt.Sprintf("decodable frames sent: %v, delivered: %v", want, dels))
 	case k < len(frames) && (len(dels) != len(want) || end != "toobig"):
@@ -1003,11 +1086,18 @@ func (st *c03state) loop(frames [][]byte, tail []byte, chunks []int) string {
 		if strings.HasPrefix(e, "x:") {
 			refused++
 		}
+		if e == "x:timeout" {
+			st.cs.Fail("stall-not-closed", "the receive loop went on reading after a read time-out inside the stream: "+strings.Join(ev, ","))
+		}
 		if e == "x:toobig" {
 			st.cs.Fail("oversize-not-closed", "the receive loop went on reading after a packet above the limit: "+strings.Join(ev, ","))
 		}
 	}
-	st.tag(fmt.Sprintf("loop:%s:d%s:x%s", end, c03bucket(len(dels)), c03bucket(refused)))
+	if stall {
+		st.tag(fmt.Sprintf("loop-stall:%s:d%s:x%s", end, c03bucket(len(dels)), c03bucket(refused)))
+	} else {
+		st.tag(fmt.Sprintf("loop:%s:d%s:x%s", end, c03bucket(len(dels)), c03bucket(refused)))
+	}
 	if len(ev) == 0 {
 		return "-"
 	}
@@ -1020,7 +1110,10 @@ func (st *c03state) send(tr string, bufs [][]byte) string {
 		return "bad-op"
 	}
 	var pat []int
-	if len(parts) == 2 {
+	hold := false
+	if len(parts) == 2 && parts[0] == "local" && parts[1] == "hold" {
+		hold = true
+	} else if len(parts) == 2 {
 		var ok bool
 		if pat, ok = c03ints(parts[1]); !ok {
 			return "bad-op"
@@ -1064,6 +1157,18 @@ func (st *c03state) send(tr string, bufs [][]byte) string {
 		}
 	}
 	before := l.deliveries()
+	if hold {
+		// the receiver's processor sits on the first message for a while: the queues of the
+		// in-memory transport fill up behind it
+		rel := make(chan struct{})
+		l.mu.Lock()
+		l.release = rel
+		l.mu.Unlock()
+		go func() {
+			time.Sleep(400 * time.Millisecond)
+			close(rel)
+		}()
+	}
 	_, err := l.r1.Send(l.to, vals...)
 	res := "ok"
 	if err != nil {
@@ -1159,12 +1264,19 @@ func c03exec(c *h.Ctx, cs *h.Case) {
 		case len(tk) == 5 && (tk[1] == "raw" || tk[1] == "loop"):
 			fr, ok1 := c03hexList(tk[2])
 			tl, ok2 := c03unhex(tk[3])
-			ch, ok3 := c03ints(tk[4])
-			if ok1 && ok2 && ok3 {
+			cp := strings.Split(tk[4], "~")
+			ch, ok3 := c03ints(cp[0])
+			var post []int
+			if len(cp) == 2 {
+				var ok4 bool
+				post, ok4 = c03ints(cp[1])
+				ok3 = ok3 && ok4 && tk[1] == "loop"
+			}
+			if ok1 && ok2 && ok3 && len(cp) <= 2 {
 				if tk[1] == "raw" {
 					obs = st.raw(fr, tl, ch)
 				} else {
-					obs = st.loop(fr, tl, ch)
+					obs = st.loop(fr, tl, ch, len(cp) == 2, post)
 				}
 			}
 		case len(tk) == 3 && tk[1] == "unm":
@@ -1494,6 +1606,64 @@ func c03gen(c *h.Ctx, yield func(*h.Case)) {
 		emit(class,
 			fmt.Sprintf("c03 cfg %d %s %s", max, reg, c03joinHex(bad)),
 			fmt.Sprintf("c03 loop %s %s %s", c03joinHex(frames), h.Hex(tail), h.Ints(g.chunks(g.stream(frames, tail)))))
+	}
+
+	// ---- a sender that stalls, inside a frame or between two, for longer than the read time-out
+	for i := 0; i < c.Pick(40, 500); i++ {
+		var frames [][]byte
+		for k := 1 + r.Intn(4); k > 0; k-- {
+			b, _ := g.valueBuf()
+			if r.Intn(6) == 0 {
+				b = append(c03bytes(r, 16), c03bytes(r, r.Intn(10))...)
+			}
+			frames = append(frames, b)
+		}
+		max := 4096
+		total := g.stream(frames, nil)
+		at := r.Intn(total + 1)
+		switch r.Intn(4) {
+		case 0: // inside a header
+			off := 0
+			for _, f := range frames[:r.Intn(len(frames))] {
+				off += 4 + len(f)
+			}
+			at = off + 1 + r.Intn(3)
+		case 1: // exactly between two frames
+			at = 0
+			for _, f := range frames[:r.Intn(len(frames)+1)] {
+				at += 4 + len(f)
+			}
+		}
+		var pre []int
+		for s := 0; s < at; {
+			k := 1 + r.Intn(at-s)
+			if r.Intn(3) == 0 {
+				k = 1
+			}
+			pre = append(pre, k)
+			s += k
+		}
+		bad, usable := g.table(frames)
+		if !usable {
+			continue
+		}
+		emit("loop-stall",
+			fmt.Sprintf("c03 cfg %d %s %s", max, reg, c03joinHex(bad)),
+			fmt.Sprintf("c03 loop %s - %s~%s", c03joinHex(frames), h.Ints(pre), h.Ints(g.chunks(total-at))))
+	}
+
+	// ---- the in-memory transport under back-pressure: more messages than its queues hold while
+	// the receiver sits on the first one
+	for i := 0; i < c.Pick(3, 30); i++ {
+		var bufs [][]byte
+		for k := 0; k < 430+r.Intn(120); k++ {
+			bufs = append(bufs, small(int64(k)))
+		}
+		emit("send-local-backpressure",
+			"c03 cfg 4096 "+reg+" -",
+			"c03 send local "+h.Hex(small(-1)),
+			"c03 send local/hold "+c03joinHex(bufs),
+			"c03 send local "+h.Hex(small(-2)))
 	}
 
 	// ---- Unmarshal on arbitrary and damaged buffers
